@@ -259,6 +259,21 @@ macro_rules! groups {
                 g.runb("boxed.zero_like", || Some(<BoxedUint as Zero>::zero_like(&bb)));
                 g.runb("boxed.zero_with_precision", || Some(BoxedUint::zero_with_precision(bits as u32)));
                 g.emit(cx, "konst", bits, &[("a", &[0u64])], &[("pexp", bits as i64)]);
+                let maxv = vec![u64::MAX; N];
+                let mut g = Grp::new();
+                g.run("uint.MAX", || Some(w(&Uint::<N>::MAX)));
+                g.run("uint.not(ZERO)", || Some(w(&!Uint::<N>::ZERO)));
+                g.run("uint.Constants.MAX", || Some(w(&<Uint<N> as vh::cb::Constants>::MAX)));
+                g.run("uint.wrapping_sub(ZERO,ONE)", || Some(w(&Uint::<N>::ZERO.wrapping_sub(&Uint::<N>::ONE))));
+                g.runb("boxed.max", || Some(BoxedUint::max(bits as u32)));
+                g.runb("boxed.max(bits-1)", || Some(BoxedUint::max(bits as u32 - 1)));          // "at least" precision: rounded up to whole limbs
+                g.runb("boxed.not(zero)", || Some(!BoxedUint::zero_with_precision(bits as u32)));
+                g.emit(cx, "konst", bits, &[("a", &maxv)], &[("pexp", bits as i64)]);
+                let mut g = Grp::new();
+                g.run("uint.ConstZero", || Some(w(&<Uint<N> as num_traits::ConstZero>::ZERO)));
+                g.run("uint.Default", || Some(w(&Uint::<N>::default())));
+                g.runb("boxed.zero+widen", || Some(BoxedUint::zero().widen(bits as u32)));
+                g.emit(cx, "konst", bits, &[("a", &[0u64])], &[("pexp", bits as i64)]);
                 let mut g = Grp::new();
                 g.run("uint.log2_bits", || Some(vec![BitOps::log2_bits(&a) as u64]));
                 g.run("boxed.log2_bits", || Some(vec![BitOps::log2_bits(&ba) as u64]));
